@@ -602,6 +602,10 @@ class TokenStream:
                 tok = tokbuf.popleft()
                 if tok.type not in self._discard_types_except_newline:
                     return tok
+                # a comment swallows the newline that ends it, so it ends
+                # the line just like a NEWLINE token does
+                if tok.value.endswith("\n"):
+                    return tok
 
             if not self._fill_tokbuf(tokbuf):
                 return None
